@@ -282,10 +282,16 @@ def run(ctx):
         n = forwarders(ctx, config, w)
         G.unit_identity(ctx, config, w)
         ctx.floor("%s: comparison forwarders of reference-unit types" % config, n, 2 * {"f64-all": 23, "dec-all": 19}.get(config, 13))
-        ov = G.overrides(ctx, "override", w.U, model.T_HRU, {"REF_UNIT"}, "HasRefUnit")
-        for tk, (extra, imp) in ov.items():
-            if set(extra) & {"eq", "partial_cmp", "equiv_amount"}:
-                ctx.fail("override", "%s/%s" % (config, tk), "impl HasRefUnit for %s overrides %s" % (tk, extra), imp["span"])
+        from . import ovequiv
+        for trait, allowed, label, rel in ((model.T_HRU, {"REF_UNIT"}, "HasRefUnit", {"eq", "partial_cmp", "equiv_amount"}),
+                                           (model.T_LSU, {"REF_UNIT", "scale"}, "LinearScaledUnit", {"ratio"})):
+            for tk, (extra, imp) in G.overrides(ctx, "override", w.U, trait, allowed, label).items():
+                extra = [x for x in extra if x in rel]
+                if extra:
+                    extra = ovequiv.filter_equivalent(ctx, "override", config, w, label, tk, extra, imp)
+                if extra:
+                    ctx.fail("override", "%s/%s" % (config, tk), "impl %s for %s overrides %s with something other than the default specialised to this type"
+                             % (label, tk, extra) + ovequiv.reasons(ctx, config, tk, label, extra), imp["span"])
     ctx.rule_text = ("per configuration: 4 ordering cases x {eq, partial_cmp} x {same-unit form, physical correctness, at most one conversion, "
                      "swap symmetry} on the generic bodies, plus one forwarder obligation per reference-unit type and operator trait")
     ctx.trusted = ["rustc THIR construction and trait resolution", "std: !=, <, <=, >, >= are the PartialEq/PartialOrd defaults derived from eq / partial_cmp",
